@@ -215,7 +215,94 @@ def mutate(child, mut):
             hs2[q] = attacker_hash(('lift', b))
             ds2[q] = (ds2[q] + 1) % 1024
         return replace(child, th, lambda c, nr: rc.pruned_raw(m2, hs2, ds2)), 'lift+subst' if sub else 'lift-only'
+    if kind == 'unexotic':
+        # the ordinary twin of an exotic cell: same data, same references, only the kind differs
+        ex = [c for c in nodes if c.special]
+        if not ex:
+            return None, 'no-exotic-cell'
+        t = ex[mut['t'] % len(ex)]
+        return replace(child, t.repr_hash(), lambda c, nr: rc.RCell(c.bits, nr, False)), f'unexotic/type{t.type}'
+    if kind == 'exoticise':
+        # the exotic twin of an ordinary cell whose data and references happen to have the exact layout of an exotic cell
+        el = [c for c in nodes if exotic_twin(c) is not None]
+        if not el:
+            return None, 'no-lookalike-cell'
+        t = el[mut['t'] % len(el)]
+        return replace(child, t.repr_hash(), lambda c, nr: rc.RCell(c.bits, nr, True)), f'exoticise/type{int(t.bits[:8], 2)}'
     raise HarnessError(f'unknown mutation {kind}')
+
+
+def exotic_twin(c):
+    """the well-formed exotic cell with the data and references of the ordinary cell c, or None"""
+    if c.special or len(c.bits) < 8 or int(c.bits[:8], 2) not in (rc.PRUNED, rc.LIBRARY, rc.MPROOF, rc.MUPDATE):
+        return None
+    try:
+        e = rc.RCell(c.bits, c.refs, True)
+    except Exception:
+        return None
+    return e if rc.spec_invalid(e) is None else None
+
+
+def lookalike(T, spec):
+    """copy of the level-0 tree T in which one ordinary cell below the root got the data an exotic cell would have over the
+    same references (0 refs: pruned branch / library cell, 1: Merkle proof, 2: Merkle update) - still an ORDINARY cell"""
+    nodes = [c for c in rc.topo([T])[1:] if not c.special and len(c.refs) <= 2]
+    if not nodes:
+        return T
+    t = nodes[spec['t'] % len(nodes)]
+    if len(t.refs) == 0:
+        if spec['a'] % 3 == 2:
+            bits = rc.library_ref(attacker_hash(('alike', spec['a']))).bits
+        else:
+            m = [1, 2, 4, 3, 7][(spec['a'] // 3) % 5]
+            n = bin(m).count('1')
+            bits = rc.pruned_raw(m, [attacker_hash(('alike', spec['a'], j)) for j in range(n)], [(spec['a'] + j) % 7 for j in range(n)]).bits
+    elif len(t.refs) == 1:
+        bits = rc.merkle_proof(t.refs[0]).bits
+    else:
+        bits = rc.merkle_update(t.refs[0], t.refs[1]).bits
+    out = replace(T, t.repr_hash(), lambda c, nr: rc.RCell(bits, nr, False))
+    if out.level() != 0:
+        raise HarnessError('lookalike changed the level of the tree')
+    return out
+
+
+def walk(c, path):
+    for i in path:
+        c = c.refs[i] if isinstance(c, rc.RCell) else c[i]
+    return c
+
+
+def nest(M, layers, keep_fn=None):
+    """the proof cell M carried by a bigger structure that is proven in turn, once per layer:
+         U = ordinary cell(bits; leaf siblings and the current proof cell at position pos);  O = MerkleProof(prune(U, sel))
+    below M the Merkle depth is 1 + number of layers, so the cells of M's tree that `sel` names become pruned branches of level
+    2 (3 in the second layer) and the carried proof cell M' gets a non-zero level.  The cells that carry M' (and keep_fn(M'))
+    are never pruned.  Returns (outermost proof cell, path of reference indexes from it down to M')."""
+    cur, path = M, []
+    for ly in layers:
+        sibs = [rc.RCell(dag.node_bits({'b': b}), [], False) for b in ly['sib'][:3]]
+        pos = ly['pos'] % (len(sibs) + 1)
+        U = rc.RCell(dag.node_bits({'b': ly['b']}), sibs[:pos] + [cur] + sibs[pos:], False)
+        down = [pos] + path
+        protect = set()
+        c = U
+        for i in down:
+            c = c.refs[i]
+            protect.add(c.repr_hash())
+        if keep_fn is not None:
+            protect |= keep_fn(c)
+        nodes = rc.topo([U])
+        sel = {nodes[i % len(nodes)].repr_hash() for i in ly['prune']} - protect
+        cur = rc.merkle_proof(prune(U, sel, 1))
+        path = [0] + down
+    return cur, path
+
+
+def st_nest(max_layers=2):
+    layer = st.fixed_dictionaries({'b': dag.st_bits(32), 'sib': st.lists(dag.st_bits(24), max_size=3), 'pos': st.integers(0, 3),
+                                   'prune': st.lists(st.integers(1, 63), min_size=1, max_size=6)})
+    return st.lists(layer, min_size=1, max_size=max_layers)
 
 
 def to_lib(root, route):
@@ -233,10 +320,53 @@ def to_lib(root, route):
 def _generic_parts(case):
     cells = dag.build_ref(case['spec'])
     T = normalise(cells[-1])
+    if case.get('alike'):
+        T = lookalike(T, case['alike'])
     nodes = rc.topo([T])
     sel = {nodes[i % len(nodes)].repr_hash() for i in case['prune']}
     Tp = prune(T, sel, 1)
     return T, Tp
+
+
+def forge(P0, h, mut):
+    """honest proof cell P0 (for hash h) + mutation -> (forged proof cell, expected hash) or None when not applicable"""
+    kind = mut['kind']
+    child = P0.refs[0]
+    if kind == 'hash-random':
+        return P0, attacker_hash(mut.get('a', 0))
+    if kind == 'hash-flip':
+        return P0, bytes(x ^ (1 << (mut['a'] % 8) if i == (mut['a'] // 8) % 32 else 0) for i, x in enumerate(h))
+    if kind == 'root-ordinary':                              # the ordinary twin of the proof cell
+        return rc.RCell(P0.bits, P0.refs, False), h
+    if kind == 'root-is-child':
+        return child, h
+    if kind == 'root-hash-flip':                             # a bit of the hash stored in the proof root itself
+        return rc.RCell(flip(P0.bits, 8 + mut['a'] % 256), P0.refs, True), h
+    X, label = mutate(child, mut)
+    if X is None:
+        return None
+    if mut.get('fix_root', False):
+        return rc.merkle_proof(X), h                         # self-consistent forgery
+    return rc.RCell(P0.bits, [X], True), h                   # stale proof-root data
+
+
+def is_valid(P, expected):
+    return (P.special and P.type == rc.MPROOF and len(P.refs) == 1 and P.data_padded()[1:33] == expected
+            and P.refs[0].H(0) == expected)
+
+
+def _detail(P, expected, mut):
+    return (f'mutation {mut} accepted; root stored hash {"==" if P.data_padded()[1:33] == expected else "!="} expected, child '
+            f'level-0 hash {"==" if P.refs and P.refs[0].H(0) == expected else "!="} expected')
+
+
+def _nested(case, T, Tp):
+    """(outermost proof O, path to the carried proof, the carried proof M') for case['nest']"""
+    O, path = nest(rc.merkle_proof(Tp), case['nest'])
+    Mi = walk(O, path)
+    if not is_valid(Mi, T.H(0)) or not is_valid(O, O.refs[0].H(0)):
+        raise HarnessError('reference model: the carried proof no longer commits to the tree')
+    return O, path, Mi
 
 
 def check_generic(case):
@@ -245,76 +375,150 @@ def check_generic(case):
     h = T.H(0)
     mut = case.get('mut')
     route = case.get('route', 'builder')
+    P0 = rc.merkle_proof(Tp)
+    if case.get('bag'):
+        return check_bag(case, P0, h)
+    where = 'generic'
+    if case.get('nest'):
+        # a proof inside a proof: the outer proof, then the carried proof cell (level >= 1 when the outer proof pruned below it)
+        O, path, P0 = _nested(case, T, Tp)
+        where = f'nested/proof-cell-level-{P0.level()}'
+        if mut is None:
+            ok, lo = to_lib(O, route)
+            if not ok:
+                return Fail(f'honest-proof/construction-raises/{exc_sig(lo)}', f'outer proof: {lo!r}')
+            ok, res = call(check_proof, lo, O.refs[0].H(0))
+            if not ok:
+                return Fail('honest-proof-rejected/outer-of-nested', f'{exc_sig(res)} {res!r}')
+            ok, res = call(check_proof, walk(lo, path), h)
+            if not ok:
+                return Fail(f'honest-proof-rejected/{where}', f'carried proof taken out of the outer one: {exc_sig(res)} {res!r}; '
+                            f'child mask {P0.refs[0].mask():03b}')
     if mut is None:
-        P = rc.merkle_proof(Tp)
-        ok, lc = to_lib(P, route)
+        ok, lc = to_lib(P0, route)
         if not ok:
             return Fail(f'honest-proof/construction-raises/{exc_sig(lc)}', f'{lc!r}')
         ok, res = call(check_proof, lc, h)
         if not ok:
-            return Fail('honest-proof-rejected/generic', f'{exc_sig(res)} {res!r}; pruned={sum(c.type == rc.PRUNED for c in rc.topo([Tp]))}')
+            return Fail(f'honest-proof-rejected/{where}', f'{exc_sig(res)} {res!r}; pruned={sum(c.type == rc.PRUNED for c in rc.topo([P0]))}'
+                        f' child mask {P0.refs[0].mask():03b}')
         return None
-    kind = mut['kind']
-    expected = h
-    if kind in ('hash-random', 'hash-flip'):
-        P = rc.merkle_proof(Tp)
-        expected = attacker_hash(mut.get('a', 0)) if kind == 'hash-random' else bytes(
-            x ^ (1 << (mut['a'] % 8) if i == (mut['a'] // 8) % 32 else 0) for i, x in enumerate(h))
-    elif kind == 'root-ordinary':
-        P0 = rc.merkle_proof(Tp)
-        P = rc.RCell(P0.bits, P0.refs, False)
-    elif kind == 'root-is-child':
-        P = Tp
-    elif kind == 'root-hash-flip':                          # a bit of the hash stored in the proof root itself
-        P0 = rc.merkle_proof(Tp)
-        P = rc.RCell(flip(P0.bits, 8 + mut['a'] % 256), P0.refs, True)
-    else:
-        X, label = mutate(Tp, mut)
-        if X is None:
-            return None
-        if mut.get('fix_root', False):
-            P = rc.merkle_proof(X)
-        else:
-            P0 = rc.merkle_proof(Tp)
-            P = rc.RCell(P0.bits, [X], True)
-    valid = (P.special and P.type == rc.MPROOF and len(P.refs) == 1 and P.data_padded()[1:33] == expected
-             and P.refs[0].H(0) == expected)
-    if valid:
+    fg = forge(P0, h, mut)
+    if fg is None:
+        return None
+    P, expected = fg
+    if is_valid(P, expected):
         return None            # mutant kept the commitment: not judged
     ok, lc = to_lib(P, route)
     if not ok:
         return None            # the forged proof cannot even be constructed/parsed: rejected
     ok, res = call(check_proof, lc, expected)
     if ok:
-        return Fail(f'forged-proof-accepted/generic/{kind}', f'mutation {mut} accepted; root stored hash '
-                    f'{"==" if P.data_padded()[1:33] == expected else "!="} expected, child level-0 hash '
-                    f'{"==" if P.refs and P.refs[0].H(0) == expected else "!="} expected')
+        return Fail(f'forged-proof-accepted/{where.split("/")[0]}/{mut["kind"]}', _detail(P, expected, mut))
+    return None
+
+
+def check_bag(case, P0, h):
+    """several proof cells for the same tree in ONE bag of cells (several roots, or the children of one ordinary cell): the honest
+    proof (or the case's mutant) and companions that differ from it in one respect - among them the ordinary twin of the proof cell
+    and ordinary / exotic twins of cells below it.  Every proof cell is judged by itself."""
+    from pytoniq_core.proof.check_proof import check_proof
+    from pytoniq_core.boc.cell import Cell
+    bag = case['bag']
+    variants = []                                            # (proof cell, expected, mutation or None)
+    for m in [case.get('mut')] + list(bag['with']):
+        fg = (P0, h) if m is None else forge(P0, h, m)
+        if fg is None or any(v[0].repr_hash() == fg[0].repr_hash() for v in variants):
+            continue
+        if m is not None and not to_lib(fg[0], 'boc')[0]:
+            continue                                         # a companion the library refuses on its own is left out of the bag
+        variants.append((fg[0], fg[1], m))
+    k = bag['perm'] % len(variants) if variants else 0
+    variants = variants[k:] + variants[:k]
+    if bag['perm'] // 8 % 2:
+        variants.reverse()
+    variants = variants[:4]
+    if not variants:
+        return None
+    roots = [v[0] for v in variants]
+    honest_in = any(v[2] is None for v in variants)
+    if bag['embed'] == 'roots':
+        data = refboc.encode(roots, has_crc=True, order=refboc.linear_extension(roots, bag['prio']))
+        ok, libs = call(Cell.from_boc, data)
+    else:
+        W = rc.RCell(dag.node_bits({'b': bag['b']}), roots, False)
+        if case.get('route') == 'boc':
+            ok, lw = call(Cell.one_from_boc, refboc.encode([W], has_crc=True, order=refboc.linear_extension([W], bag['prio'])))
+        else:
+            ok, lw = call(dag.lib_from_rcell, W, 'builder')
+        libs = [lw[i] for i in range(len(roots))] if ok else lw
+    if not ok:
+        # every member was accepted on its own
+        return Fail(f'honest-proof/bag-construction-raises/{exc_sig(libs)}', f'{libs!r}') if honest_in else None
+    if len(libs) != len(roots):
+        return Fail('honest-proof/bag-root-count', f'{len(libs)} roots for {len(roots)}') if honest_in else None
+    for (P, expected, m), lc in zip(variants, libs):
+        ok, res = call(check_proof, lc, expected)
+        if m is None:
+            if not ok:
+                return Fail('honest-proof-rejected/generic/in-bag-with-variants', f'{exc_sig(res)} {res!r}; bag also holds '
+                            f'{[v[2]["kind"] for v in variants if v[2]]} ({bag["embed"]})')
+        elif ok and not is_valid(P, expected):
+            return Fail(f'forged-proof-accepted/generic/{m["kind"]}', _detail(P, expected, m) + f'; same bag holds '
+                        f'{[v[2]["kind"] if v[2] else "honest" for v in variants]} ({bag["embed"]})')
     return None
 
 
 MUT_KINDS = ['data-flip', 'data-flip', 'ref-drop', 'ref-swap', 'ref-dup', 'ref-retarget', 'pruned-hash', 'pruned-hash',
-             'pruned-depth', 'lift', 'lift']
+             'pruned-depth', 'lift', 'lift', 'unexotic', 'exoticise']
+TOP_KINDS = ['hash-random', 'hash-flip', 'root-ordinary', 'root-is-child', 'root-hash-flip']
+
+
+def st_body_mut(kinds=MUT_KINDS):
+    return st.fixed_dictionaries({'kind': st.sampled_from(kinds), 't': st.integers(0, 63), 'a': st.integers(0, 4095),
+                                  'b': st.integers(0, 255), 'fix_root': st.booleans(), 'sub': st.sampled_from([True, True, False])})
 
 
 def st_mut(extra=()):
-    body = st.fixed_dictionaries({'kind': st.sampled_from(MUT_KINDS), 't': st.integers(0, 63), 'a': st.integers(0, 4095),
-                                  'b': st.integers(0, 255), 'fix_root': st.booleans(), 'sub': st.sampled_from([True, True, False])})
-    top = st.fixed_dictionaries({'kind': st.sampled_from(['hash-random', 'hash-flip', 'root-ordinary', 'root-is-child', 'root-hash-flip'] + list(extra)),
-                                 'a': st.integers(0, 255)})
+    body = st_body_mut()
+    top = st.fixed_dictionaries({'kind': st.sampled_from(TOP_KINDS + list(extra)), 'a': st.integers(0, 255)})
     return st.one_of(body, body, body, top)
 
 
-def strat_generic(tier):
-    spec = st.one_of(dag.st_ord_dag(max_nodes=14, max_len=64, min_nodes=3), dag.st_ord_dag(max_nodes=14, max_len=64, min_nodes=2),
+def st_tree():
+    return st.one_of(dag.st_ord_dag(max_nodes=14, max_len=64, min_nodes=3), dag.st_ord_dag(max_nodes=14, max_len=64, min_nodes=2),
                      dag.st_exotic_dag(max_nodes=12, max_len=48))
-    return st.fixed_dictionaries({'spec': spec, 'prune': st.one_of(st.lists(st.integers(1, 63), min_size=1, max_size=6),
-                                                                  st.lists(st.integers(1, 63), min_size=1, max_size=6),
-                                                                  st.lists(st.integers(0, 63), max_size=2)),
+
+
+def st_prune():
+    return st.one_of(st.lists(st.integers(1, 63), min_size=1, max_size=6), st.lists(st.integers(1, 63), min_size=1, max_size=6),
+                     st.lists(st.integers(0, 63), max_size=2))
+
+
+ST_ALIKE = st.one_of(st.none(), st.none(), st.fixed_dictionaries({'t': st.integers(0, 31), 'a': st.integers(0, 255)}))
+
+
+def strat_generic(tier):
+    return st.fixed_dictionaries({'spec': st_tree(), 'prune': st_prune(), 'alike': ST_ALIKE,
                                   'route': st.sampled_from(['builder', 'boc']), 'mut': st.one_of(st.none(), st_mut())})
 
 
-def _still_valid_generic(case):
-    return False
+def strat_nested(tier):
+    return st.fixed_dictionaries({'spec': st_tree(), 'prune': st_prune(), 'nest': st_nest(),
+                                  'route': st.sampled_from(['builder', 'boc']), 'mut': st.one_of(st.none(), st.none(), st_mut())})
+
+
+def strat_bag(tier):
+    twin_root = st.fixed_dictionaries({'kind': st.just('root-ordinary'), 'a': st.integers(0, 255)})
+    twin_below = st_body_mut(['unexotic', 'unexotic', 'exoticise'])
+    other = st.one_of(st_body_mut(), st.fixed_dictionaries({'kind': st.sampled_from(['root-ordinary', 'root-is-child', 'root-hash-flip']),
+                                                            'a': st.integers(0, 255)}))
+    bag = st.fixed_dictionaries({'with': st.lists(st.one_of(twin_root, twin_below, other), min_size=1, max_size=3),
+                                 'perm': st.integers(0, 15), 'prio': st.lists(st.integers(0, 7), max_size=6),
+                                 'embed': st.sampled_from(['roots', 'roots', 'parent']), 'b': dag.st_bits(16)})
+    return st.fixed_dictionaries({'spec': st_tree(), 'prune': st_prune(), 'alike': ST_ALIKE, 'bag': bag,
+                                  'route': st.sampled_from(['builder', 'boc']),
+                                  'mut': st.one_of(st.none(), st.none(), st.none(), st_body_mut())})
 
 
 def classify_generic(case):
@@ -325,11 +529,31 @@ def classify_generic(case):
     yield 'route=' + case.get('route', 'builder')
     if any(c.special and c.type != rc.PRUNED for c in rc.topo([T])):
         yield 'tree-has-exotic-cells'
+    if any(exotic_twin(c) is not None for c in rc.topo([T])):
+        yield 'tree-has-an-ordinary-cell-with-the-layout-of-an-exotic-cell'
+    child = Tp
+    if case.get('nest'):
+        O, path, Mi = _nested(case, T, Tp)
+        child = Mi.refs[0]
+        yield f'nest-layers={len(case["nest"])}'
+        yield f'carried-proof-cell-level={Mi.level()} child-mask={child.mask():03b}'
     if case.get('mut') and case['mut']['kind'] in MUT_KINDS:
-        X, label = mutate(Tp, case['mut'])
+        X, label = mutate(child, case['mut'])
         yield 'applied:' + (label if X is not None else 'n/a ' + label)
         if X is not None and X.H(0) == T.H(0):
             yield 'mutant-still-valid'
+    if case.get('bag'):
+        P0 = rc.merkle_proof(Tp)
+        yield 'bag:' + case['bag']['embed']
+        kinds = set()
+        for m in case['bag']['with']:
+            fg = forge(P0, T.H(0), m)
+            if fg is not None:
+                kinds.add(m['kind'] if m['kind'] in TOP_KINDS else mutate(Tp, m)[1])
+        for k in sorted(kinds):
+            yield 'bag-companion:' + k
+        if kinds & {'root-ordinary'} or any(k.startswith(('unexotic', 'exoticise')) for k in kinds):
+            yield 'bag-holds-ordinary/exotic-twins'
 
 
 def nt_generic(case):
@@ -777,6 +1001,11 @@ def nt_any(case):
 SUBCHECKS = [
     Sub('generic-proof', check_generic, strategy=strat_generic, classify=classify_generic, nontrivial=nt_generic,
         n=(3000, 80000), shards=(16, 48), note='check_proof: honest proofs accepted, invalid mutants rejected'),
+    Sub('nested-proof', check_generic, strategy=strat_nested, classify=classify_generic, nontrivial=nt_any,
+        n=(800, 20000), shards=(16, 48), note='check_proof on a proof carried inside another proof (proof cell of level >= 1), taken out of '
+        'the outer proof and stand-alone; its mutants'),
+    Sub('bag-of-proofs', check_generic, strategy=strat_bag, classify=classify_generic, nontrivial=nt_any,
+        n=(800, 20000), shards=(16, 48), note='honest proof and variants of it (incl. ordinary/exotic twins) in one bag: each judged by itself'),
     Sub('block-header-proof', check_header, strategy=strat_header, classify=classify_header, nontrivial=nt_any,
         n=(2000, 50000), shards=(16, 48), note='check_block_header_proof incl. extracted state hash and level-lift forgeries'),
     Sub('account-proof', check_account, strategy=strat_account, classify=classify_account, nontrivial=nt_any,
